@@ -1,8 +1,9 @@
 """C15 - MAP / ML estimates are true maximisers; direct Gaussian sampling has the exact closed-form moments.
 
 Spec: specs/LinGauss.tla, parts "map" (closed forms + geometry), "route" (type based selection of BayesianProblem,
-requirement outcome in {closed form, Error}) and "poly" (optimisation route on polynomial forward models with a
-constructed stationary point).  TLC checks on the specification that the Tarantola form evaluated by the direct route
+requirement outcome in {closed form, Error}), "poly" (optimisation route on polynomial forward models with a
+constructed stationary point) and "reassign" (ONE problem object whose inputs are re-assigned through the public
+setters: in every reachable state the closed forms are those of a freshly built problem, invariant ReassignIsFresh).  TLC checks on the specification that the Tarantola form evaluated by the direct route
 equals the information-form posterior mean for every way the covariances are written and every geometry, that the
 normal equations define x_ML, that the routing table sends only linear-Gaussian problems to the closed-form routes,
 and emits the exact rationals.  This module builds the real BayesianProblems, calls MAP(), ML(), sample_posterior()
@@ -19,7 +20,12 @@ META = {
              "Hessian; named deviations (vector covariance broadcast, stored matrix ignoring the geometry, precision used for "
              "covariance) are refuted by TLC.  The harness replays every emitted configuration into BayesianProblem.MAP / ML / "
              "sample_posterior (scripted normals 0, e_i): estimate = closed form (rtol 1e-7 direct, solver-tied otherwise) or an "
-             "exception, never another point; direct draws have offset mu_post and L L^T = Lambda^-1."),
+             "exception, never another point; direct draws have offset mu_post and L L^T = Lambda^-1.  Part `reassign`: two "
+             "versions of prior mean, prior parameter, noise parameter and data; TLC explores every order of ReWarm "
+             "(compute_cov) / ReAssign(field) and checks ReassignIsFresh (closed forms in every reachable state = those of a "
+             "fresh problem with the values currently assigned; deviation StaleCovAfterReassign refuted); the harness walks "
+             "these behaviours on ONE BayesianProblem (warm chain, assign-before-evaluate, partial reassignment) and compares "
+             "compute_cov / sqrtprec / log-density differences / MAP / ML / direct draws after every action."),
     "note": ("Bounded sizes (n, m <= 3), integer/dyadic lattice; optimisation route judged by the optimality conditions with "
              "tolerances tied to scipy's gtol=1e-5 (gradient <= 1e-4, no larger neighbour at distance 1e-2..1e-3), so only local "
              "optimality is asserted for non-convex polynomial posteriors; results flagged unsuccessful by the solver info are "
@@ -747,15 +753,25 @@ def run(ctx):
     for c in (direct[0], [k for k in direct if k["geo"] == "step"][0] if any(k["geo"] == "step" for k in direct) else map_cases[-1]):
         ctx.sample({"case": {k: c[k] for k in ("kind", "n", "m", "geo", "mdl", "A", "E", "G", "y", "noise", "prior", "route", "Lam", "rhs", "mu_q", "LamInv_q", "xml_q")}})
     ctx.sample({"case": {k: pcs[0][k] for k in ("kind", "model", "F", "xstar_q", "y_q", "mu_q", "pe", "px", "hess_q")}})
+    g = [g for g in re_groups if g["1111"]["noise"]["form"] == "sqrtprec" and g["1111"]["prior"]["form"] == "sqrtprec"][-1]
+    keep = ("sel", "y", "noise", "prior", "C0_q", "Ce_q", "mu_q", "LamInv_q", "xml_q")
+    ctx.sample({"case": {"kind": "reassign", "A": g["1111"]["A"], "behaviour": "build(1111) . ReWarm . ReAssign(prior) . ReAssign(noise) . ...",
+                         "states": {k: {q: g[k][q] for q in keep} for k in ("1111", "1211", "1221", "2222")}}})
     ctx.rule = ("one case per configuration emitted by TLC from LinGauss.tla (parts map, poly, route) with exact mu_post, Lambda^-1, x_ML; "
-                "non-trivial = distinct (configuration, call) among MAP / ML / direct sampling / polynomial MAP from two starts / route realisation")
+                "non-trivial = distinct (configuration, call) among MAP / ML / direct sampling / polynomial MAP from two starts / route realisation; "
+                "part reassign: one case per (behaviour, action reached, observable) = distinct (configuration, order, field just assigned, "
+                "versions assigned, phase, observable)")
     ctx.exhaustive = True
     ctx.traces = len(map_cases) + len(pcs) + 1 + ctx.observations.get("reassign_behaviours", 0)
     ctx.assumptions += ["scipy BFGS / L-BFGS-B defaults (gtol 1e-5) define the tolerance of the optimisation route (gradient <= 1e-4 x scale)",
                         "sqrtcov convention cov = S S^T (code and tests/test_distribution.py; the docstring says S^T S)",
                         "an exception of MAP/ML/sample_posterior is an accepted outcome (property: 'the call fails instead of returning another point')",
                         "results whose solver info reports success=False are recorded, not judged",
-                        "sizes and the integer/dyadic lattice bounded by LinGauss.*.cfg"]
+                        "sizes and the integer/dyadic lattice bounded by LinGauss.*.cfg",
+                        "reassign: BayesianProblem conditions copies of the distributions it is given (Distribution._condition -> _make_copy), "
+                        "so values are assigned to BP.prior, BP.likelihood.distribution and BP.likelihood.data (the objects the problem holds); "
+                        "a refused assignment or a failing call after an assignment is an accepted outcome, another value is not",
+                        "reassign: log-densities are compared as differences between two points (normalisation belongs to C04)"]
 
 
 def replay(ctx, case):
